@@ -84,7 +84,8 @@ def oracle_children(tr, status, spec):
                 if x[0] == 'user_call' and x[1] == 'handle' and str(x[4]).startswith(tag + '#'):
                     got[x[3]] = got.get(x[3], 0) + 1
             ended = status == 'quiescent'
-            for c in under_m:
+            targets = under_unit if str(tag).startswith('u') else under_m
+            for c in targets:
                 cterm = next((j for j, x in enumerate(tr) if x[0] in ('task_done', 'task_killed', 'task_panicked') and x[1] == child_task[c]), None)
                 alive_then = cterm is None or cterm > i
                 n = got.get(c, 0)
@@ -93,6 +94,6 @@ def oracle_children(tr, status, spec):
                 if ended and alive_then and n == 0:
                     v.append(f"broadcast {tag} never reached child {c} registered under its message type")
             for c in got:
-                if c not in under_m:
+                if c not in targets:
                     v.append(f"broadcast {tag} reached {c} which is not registered under that message type")
     return v
